@@ -1,4 +1,5 @@
 import EduceModel.Expand
+import EduceModel.Generated.EnableFlags
 /-
   C13 — contradictory, ambiguous or misplaced attributes are rejected, not guessed.
 
@@ -743,5 +744,110 @@ example :
     let c : Ctx := { F := TraitId.all, traits := fun t => t == .clone || t == .copy, d := { name := "E", kind := .enum, variants := [v] } }
     c.traits .clone = true ∧ c.d.kind = .enum ∧ c.d.variants = [] ++ v :: [] ∧ v.attrs = [] ++ a :: [] ∧
       (a.isEduce && a.isList) = true ∧ a.metas = some ([] ++ m :: []) ∧ traitOf c.F m = some .copy ∧ m.form.isEmptyList = false := by decide
+
+
+/-! ### the switches of every builder call in the source
+
+`Generated.builders` is regenerated from /repo/src on every run: every `FieldAttributeBuilder { .. }` / `TypeAttributeBuilder { .. }`
+literal with its `enable_*` values, in source order. The table below is what the attribute-layer model (`Expand.lean`: the flag records
+each handler passes to its builders) was written from and validated against (B4); any change of a switch in the source — a parameter
+accepted at a position where it was refused, or the reverse — breaks this equation by name. -/
+
+def expectedBuilders : List (String × String × String × List (String × String)) := [
+  ("trait_handlers/clone/clone_enum.rs", "trait_meta_handler", "TypeAttributeBuilder", [("enable_flag", "true"), ("enable_bound", "true")]),
+  ("trait_handlers/clone/clone_enum.rs", "trait_meta_handler", "TypeAttributeBuilder", [("enable_flag", "false"), ("enable_bound", "false")]),
+  ("trait_handlers/clone/clone_enum.rs", "trait_meta_handler", "FieldAttributeBuilder", [("enable_method", "true")]),
+  ("trait_handlers/clone/clone_struct.rs", "trait_meta_handler", "TypeAttributeBuilder", [("enable_flag", "true"), ("enable_bound", "true")]),
+  ("trait_handlers/clone/clone_struct.rs", "trait_meta_handler", "FieldAttributeBuilder", [("enable_method", "! contains_copy")]),
+  ("trait_handlers/clone/clone_union.rs", "trait_meta_handler", "TypeAttributeBuilder", [("enable_flag", "true"), ("enable_bound", "true")]),
+  ("trait_handlers/clone/clone_union.rs", "trait_meta_handler", "FieldAttributeBuilder", [("enable_method", "false")]),
+  ("trait_handlers/copy/mod.rs", "trait_meta_handler", "TypeAttributeBuilder", [("enable_flag", "true"), ("enable_bound", "! contains_clone")]),
+  ("trait_handlers/copy/mod.rs", "trait_meta_handler", "FieldAttributeBuilder", []),
+  ("trait_handlers/copy/mod.rs", "trait_meta_handler", "TypeAttributeBuilder", [("enable_flag", "false"), ("enable_bound", "false")]),
+  ("trait_handlers/copy/mod.rs", "trait_meta_handler", "FieldAttributeBuilder", []),
+  ("trait_handlers/copy/mod.rs", "trait_meta_handler", "FieldAttributeBuilder", []),
+  ("trait_handlers/debug/debug_enum.rs", "trait_meta_handler", "TypeAttributeBuilder", [("enable_flag", "true"), ("enable_unsafe", "false"), ("enable_name", "true"), ("enable_named_field", "false"), ("enable_bound", "true"), ("name", "TypeName :: Disable"), ("named_field", "false")]),
+  ("trait_handlers/debug/debug_enum.rs", "trait_meta_handler", "TypeAttributeBuilder", [("enable_flag", "false"), ("enable_unsafe", "false"), ("enable_name", "true"), ("enable_named_field", "true"), ("enable_bound", "false"), ("name", "TypeName :: Default"), ("named_field", "matches ! (& variant . fields , Fields :: Named (_))")]),
+  ("trait_handlers/debug/debug_enum.rs", "trait_meta_handler", "FieldAttributeBuilder", [("enable_name", "true"), ("enable_ignore", "true"), ("enable_method", "true"), ("name", "FieldName :: Default")]),
+  ("trait_handlers/debug/debug_enum.rs", "trait_meta_handler", "FieldAttributeBuilder", [("enable_name", "false"), ("enable_ignore", "true"), ("enable_method", "true"), ("name", "FieldName :: Default")]),
+  ("trait_handlers/debug/debug_enum.rs", "trait_meta_handler", "FieldAttributeBuilder", [("enable_name", "true"), ("enable_ignore", "true"), ("enable_method", "true"), ("name", "FieldName :: Default")]),
+  ("trait_handlers/debug/debug_enum.rs", "trait_meta_handler", "FieldAttributeBuilder", [("enable_name", "false"), ("enable_ignore", "true"), ("enable_method", "true"), ("name", "FieldName :: Default")]),
+  ("trait_handlers/debug/debug_struct.rs", "trait_meta_handler", "TypeAttributeBuilder", [("enable_flag", "true"), ("enable_unsafe", "false"), ("enable_name", "true"), ("enable_named_field", "true"), ("enable_bound", "true"), ("name", "TypeName :: Default"), ("named_field", "! is_tuple")]),
+  ("trait_handlers/debug/debug_struct.rs", "trait_meta_handler", "FieldAttributeBuilder", [("enable_name", "true"), ("enable_ignore", "true"), ("enable_method", "true"), ("name", "FieldName :: Default")]),
+  ("trait_handlers/debug/debug_struct.rs", "trait_meta_handler", "FieldAttributeBuilder", [("enable_name", "false"), ("enable_ignore", "true"), ("enable_method", "true"), ("name", "FieldName :: Default")]),
+  ("trait_handlers/debug/debug_union.rs", "trait_meta_handler", "TypeAttributeBuilder", [("enable_flag", "true"), ("enable_unsafe", "true"), ("enable_name", "true"), ("enable_named_field", "false"), ("enable_bound", "false"), ("name", "TypeName :: Default"), ("named_field", "false")]),
+  ("trait_handlers/debug/debug_union.rs", "trait_meta_handler", "FieldAttributeBuilder", [("enable_name", "false"), ("enable_ignore", "false"), ("enable_method", "false"), ("name", "FieldName :: Default")]),
+  ("trait_handlers/default/default_enum.rs", "trait_meta_handler", "TypeAttributeBuilder", [("enable_flag", "true"), ("enable_new", "true"), ("enable_expression", "true"), ("enable_bound", "true")]),
+  ("trait_handlers/default/default_enum.rs", "trait_meta_handler", "TypeAttributeBuilder", [("enable_flag", "false"), ("enable_new", "false"), ("enable_expression", "false"), ("enable_bound", "false")]),
+  ("trait_handlers/default/default_enum.rs", "trait_meta_handler", "TypeAttributeBuilder", [("enable_flag", "true"), ("enable_new", "false"), ("enable_expression", "false"), ("enable_bound", "false")]),
+  ("trait_handlers/default/default_enum.rs", "trait_meta_handler", "TypeAttributeBuilder", [("enable_flag", "true"), ("enable_new", "false"), ("enable_expression", "false"), ("enable_bound", "false")]),
+  ("trait_handlers/default/default_enum.rs", "trait_meta_handler", "FieldAttributeBuilder", [("enable_flag", "false"), ("enable_expression", "true")]),
+  ("trait_handlers/default/default_enum.rs", "trait_meta_handler", "FieldAttributeBuilder", [("enable_flag", "false"), ("enable_expression", "true")]),
+  ("trait_handlers/default/default_enum.rs", "ensure_fields_no_attribute", "FieldAttributeBuilder", [("enable_flag", "false"), ("enable_expression", "false")]),
+  ("trait_handlers/default/default_enum.rs", "ensure_fields_no_attribute", "FieldAttributeBuilder", [("enable_flag", "false"), ("enable_expression", "false")]),
+  ("trait_handlers/default/default_struct.rs", "trait_meta_handler", "TypeAttributeBuilder", [("enable_flag", "true"), ("enable_new", "true"), ("enable_expression", "true"), ("enable_bound", "true")]),
+  ("trait_handlers/default/default_struct.rs", "trait_meta_handler", "FieldAttributeBuilder", [("enable_flag", "false"), ("enable_expression", "false")]),
+  ("trait_handlers/default/default_struct.rs", "trait_meta_handler", "FieldAttributeBuilder", [("enable_flag", "false"), ("enable_expression", "true")]),
+  ("trait_handlers/default/default_struct.rs", "trait_meta_handler", "FieldAttributeBuilder", [("enable_flag", "false"), ("enable_expression", "true")]),
+  ("trait_handlers/default/default_union.rs", "trait_meta_handler", "TypeAttributeBuilder", [("enable_flag", "true"), ("enable_new", "true"), ("enable_expression", "true"), ("enable_bound", "true")]),
+  ("trait_handlers/default/default_union.rs", "trait_meta_handler", "FieldAttributeBuilder", [("enable_flag", "false"), ("enable_expression", "false")]),
+  ("trait_handlers/default/default_union.rs", "trait_meta_handler", "FieldAttributeBuilder", [("enable_flag", "true"), ("enable_expression", "true")]),
+  ("trait_handlers/default/default_union.rs", "trait_meta_handler", "FieldAttributeBuilder", [("enable_flag", "true"), ("enable_expression", "true")]),
+  ("trait_handlers/deref/deref_enum.rs", "trait_meta_handler", "TypeAttributeBuilder", [("enable_flag", "true")]),
+  ("trait_handlers/deref/deref_enum.rs", "trait_meta_handler", "TypeAttributeBuilder", [("enable_flag", "false")]),
+  ("trait_handlers/deref/deref_enum.rs", "trait_meta_handler", "FieldAttributeBuilder", [("enable_flag", "true")]),
+  ("trait_handlers/deref/deref_enum.rs", "trait_meta_handler", "FieldAttributeBuilder", [("enable_flag", "true")]),
+  ("trait_handlers/deref/deref_struct.rs", "trait_meta_handler", "TypeAttributeBuilder", [("enable_flag", "true")]),
+  ("trait_handlers/deref/deref_struct.rs", "trait_meta_handler", "FieldAttributeBuilder", [("enable_flag", "true")]),
+  ("trait_handlers/deref/deref_struct.rs", "trait_meta_handler", "FieldAttributeBuilder", [("enable_flag", "true")]),
+  ("trait_handlers/deref_mut/deref_mut_enum.rs", "trait_meta_handler", "TypeAttributeBuilder", [("enable_flag", "true")]),
+  ("trait_handlers/deref_mut/deref_mut_enum.rs", "trait_meta_handler", "TypeAttributeBuilder", [("enable_flag", "false")]),
+  ("trait_handlers/deref_mut/deref_mut_enum.rs", "trait_meta_handler", "FieldAttributeBuilder", [("enable_flag", "true")]),
+  ("trait_handlers/deref_mut/deref_mut_enum.rs", "trait_meta_handler", "FieldAttributeBuilder", [("enable_flag", "true")]),
+  ("trait_handlers/deref_mut/deref_mut_struct.rs", "trait_meta_handler", "TypeAttributeBuilder", [("enable_flag", "true")]),
+  ("trait_handlers/deref_mut/deref_mut_struct.rs", "trait_meta_handler", "FieldAttributeBuilder", [("enable_flag", "true")]),
+  ("trait_handlers/deref_mut/deref_mut_struct.rs", "trait_meta_handler", "FieldAttributeBuilder", [("enable_flag", "true")]),
+  ("trait_handlers/eq/mod.rs", "trait_meta_handler", "TypeAttributeBuilder", [("enable_flag", "true"), ("enable_bound", "! contains_partial_eq")]),
+  ("trait_handlers/eq/mod.rs", "trait_meta_handler", "FieldAttributeBuilder", []),
+  ("trait_handlers/eq/mod.rs", "trait_meta_handler", "TypeAttributeBuilder", [("enable_flag", "false"), ("enable_bound", "false")]),
+  ("trait_handlers/eq/mod.rs", "trait_meta_handler", "FieldAttributeBuilder", []),
+  ("trait_handlers/eq/mod.rs", "trait_meta_handler", "FieldAttributeBuilder", []),
+  ("trait_handlers/hash/hash_enum.rs", "trait_meta_handler", "TypeAttributeBuilder", [("enable_flag", "true"), ("enable_unsafe", "false"), ("enable_bound", "true")]),
+  ("trait_handlers/hash/hash_enum.rs", "trait_meta_handler", "TypeAttributeBuilder", [("enable_flag", "false"), ("enable_unsafe", "false"), ("enable_bound", "false")]),
+  ("trait_handlers/hash/hash_enum.rs", "trait_meta_handler", "FieldAttributeBuilder", [("enable_ignore", "true"), ("enable_method", "true")]),
+  ("trait_handlers/hash/hash_enum.rs", "trait_meta_handler", "FieldAttributeBuilder", [("enable_ignore", "true"), ("enable_method", "true")]),
+  ("trait_handlers/hash/hash_struct.rs", "trait_meta_handler", "TypeAttributeBuilder", [("enable_flag", "true"), ("enable_unsafe", "false"), ("enable_bound", "true")]),
+  ("trait_handlers/hash/hash_struct.rs", "trait_meta_handler", "FieldAttributeBuilder", [("enable_ignore", "true"), ("enable_method", "true")]),
+  ("trait_handlers/hash/hash_union.rs", "trait_meta_handler", "TypeAttributeBuilder", [("enable_flag", "true"), ("enable_unsafe", "true"), ("enable_bound", "false")]),
+  ("trait_handlers/hash/hash_union.rs", "trait_meta_handler", "FieldAttributeBuilder", [("enable_ignore", "false"), ("enable_method", "false")]),
+  ("trait_handlers/into/into_enum.rs", "trait_meta_handler", "TypeAttributeBuilder", [("enable_types", "true")]),
+  ("trait_handlers/into/into_enum.rs", "trait_meta_handler", "TypeAttributeBuilder", [("enable_types", "false")]),
+  ("trait_handlers/into/into_enum.rs", "trait_meta_handler", "FieldAttributeBuilder", [("enable_types", "true")]),
+  ("trait_handlers/into/into_struct.rs", "trait_meta_handler", "TypeAttributeBuilder", [("enable_types", "true")]),
+  ("trait_handlers/into/into_struct.rs", "trait_meta_handler", "FieldAttributeBuilder", [("enable_types", "true")]),
+  ("trait_handlers/ord/ord_enum.rs", "trait_meta_handler", "TypeAttributeBuilder", [("enable_flag", "true"), ("enable_bound", "true")]),
+  ("trait_handlers/ord/ord_enum.rs", "trait_meta_handler", "TypeAttributeBuilder", [("enable_flag", "false"), ("enable_bound", "false")]),
+  ("trait_handlers/ord/ord_enum.rs", "trait_meta_handler", "FieldAttributeBuilder", [("enable_ignore", "true"), ("enable_method", "true"), ("enable_rank", "true"), ("rank", "isize :: MIN + index as isize")]),
+  ("trait_handlers/ord/ord_enum.rs", "trait_meta_handler", "FieldAttributeBuilder", [("enable_ignore", "true"), ("enable_method", "true"), ("enable_rank", "true"), ("rank", "isize :: MIN + index as isize")]),
+  ("trait_handlers/ord/ord_struct.rs", "trait_meta_handler", "TypeAttributeBuilder", [("enable_flag", "true"), ("enable_bound", "true")]),
+  ("trait_handlers/ord/ord_struct.rs", "trait_meta_handler", "FieldAttributeBuilder", [("enable_ignore", "true"), ("enable_method", "true"), ("enable_rank", "true"), ("rank", "isize :: MIN + index as isize")]),
+  ("trait_handlers/partial_eq/partial_eq_enum.rs", "trait_meta_handler", "TypeAttributeBuilder", [("enable_flag", "true"), ("enable_unsafe", "false"), ("enable_bound", "true")]),
+  ("trait_handlers/partial_eq/partial_eq_enum.rs", "trait_meta_handler", "TypeAttributeBuilder", [("enable_flag", "false"), ("enable_unsafe", "false"), ("enable_bound", "false")]),
+  ("trait_handlers/partial_eq/partial_eq_enum.rs", "trait_meta_handler", "FieldAttributeBuilder", [("enable_ignore", "true"), ("enable_method", "true")]),
+  ("trait_handlers/partial_eq/partial_eq_enum.rs", "trait_meta_handler", "FieldAttributeBuilder", [("enable_ignore", "true"), ("enable_method", "true")]),
+  ("trait_handlers/partial_eq/partial_eq_struct.rs", "trait_meta_handler", "TypeAttributeBuilder", [("enable_flag", "true"), ("enable_unsafe", "false"), ("enable_bound", "true")]),
+  ("trait_handlers/partial_eq/partial_eq_struct.rs", "trait_meta_handler", "FieldAttributeBuilder", [("enable_ignore", "true"), ("enable_method", "true")]),
+  ("trait_handlers/partial_eq/partial_eq_union.rs", "trait_meta_handler", "TypeAttributeBuilder", [("enable_flag", "true"), ("enable_unsafe", "true"), ("enable_bound", "false")]),
+  ("trait_handlers/partial_eq/partial_eq_union.rs", "trait_meta_handler", "FieldAttributeBuilder", [("enable_ignore", "false"), ("enable_method", "false")]),
+  ("trait_handlers/partial_ord/mod.rs", "trait_meta_handler", "TypeAttributeBuilder", [("enable_flag", "true"), ("enable_bound", "false")]),
+  ("trait_handlers/partial_ord/partial_ord_enum.rs", "trait_meta_handler", "TypeAttributeBuilder", [("enable_flag", "true"), ("enable_bound", "true")]),
+  ("trait_handlers/partial_ord/partial_ord_enum.rs", "trait_meta_handler", "TypeAttributeBuilder", [("enable_flag", "false"), ("enable_bound", "false")]),
+  ("trait_handlers/partial_ord/partial_ord_enum.rs", "trait_meta_handler", "FieldAttributeBuilder", [("enable_ignore", "true"), ("enable_method", "true"), ("enable_rank", "true"), ("rank", "isize :: MIN + index as isize")]),
+  ("trait_handlers/partial_ord/partial_ord_enum.rs", "trait_meta_handler", "FieldAttributeBuilder", [("enable_ignore", "true"), ("enable_method", "true"), ("enable_rank", "true"), ("rank", "isize :: MIN + index as isize")]),
+  ("trait_handlers/partial_ord/partial_ord_struct.rs", "trait_meta_handler", "TypeAttributeBuilder", [("enable_flag", "true"), ("enable_bound", "true")]),
+  ("trait_handlers/partial_ord/partial_ord_struct.rs", "trait_meta_handler", "FieldAttributeBuilder", [("enable_ignore", "true"), ("enable_method", "true"), ("enable_rank", "true"), ("rank", "isize :: MIN + index as isize")])
+]
+
+theorem builder_switches_unchanged : Generated.builders = expectedBuilders := by decide +kernel
 
 end Educe.Attr
